@@ -66,6 +66,21 @@ def is_timing_verdict(m):
     return any(w in m for w in TIMING_WORDS)
 
 
+LOAD_TIES_FOR_SCHED = [t for t in _ties_of("Load") if t.startswith("h_load_build") or t in ("h_load_parseMiscs", "h_load_parseFuncCalls")]
+
+
+def yaml_stream(chk, prop, replay=None):
+    """definitions written in YAML arrive at the scheduler as written (lib/yamlfields.py)"""
+    import yamlfields
+    if replay:
+        rp = json.load(open(replay))
+        if "yaml_case" not in rp.get("case", {}):
+            return
+    binp, out = common.build_harness("sched")
+    if binp:
+        yamlfields.run(chk, prop, binp, 150 if chk.tier == "quick" else 1500)
+
+
 def gen_fanin_case(rng, k, maxn):
     """wide fan-ins: 3..maxn-1 independent sources and 1-2 joins naming 3 or more of them in random order, so that
     a straggler (still running / failing) sits between dependencies that are already finished when the loop polls"""
@@ -410,5 +425,8 @@ def run_property(chk, prop, replay=None):
     if prop == "C03":
         # "no history is written in dry-run mode" is a theorem about the agent's call order (Lock area model of Agent.Run)
         ties["Lock"] = [t for t in _ties_of("Lock") if t.startswith("h_lock_agent_")]
+    # Load: the settings the scheduler works with are what the loader makes of the definition (buildStep & co.)
+    ties["Load"] = LOAD_TIES_FOR_SCHED
     common.lean_obligations(chk, "BdModel/Props/%s.lean" % prop, ties, extra_targets=["BdModel.Sched.Tables"])
     run_stream(chk, prop, replay)
+    yaml_stream(chk, prop, replay)
